@@ -487,6 +487,119 @@ def _key_is_injective(key, need_varargs):
     return not need_varargs or any("args" in a for a in got)
 
 
+def _judge_cse_mixin(model, mx, fn):
+    """interpretive judge (pv/absint.py): the mix-in's handler interpreted on
+    one abstract mapper through histories of requests -- wrappers that are equal
+    or different, with extra positional (and, where the signature takes them,
+    keyword) arguments that are equal or different.  Checked: the first request
+    for a (wrapper, arguments) combination calls
+    map_common_subexpression_uncached exactly once with exactly these
+    arguments and returns its result; a repeated request returns the same
+    result without calling it again; a request that differs in the wrapper or
+    in any argument does call it; a value that is falsy (0, empty) is served
+    from the table like any other.  -> (witnesses, n_cases)"""
+    from ..absint import Interp, Opaque, Raised, StepBound, module_env
+    import itertools
+    sig = signature(fn)
+
+    class W:                # a wrapper node: hashable, equal by name
+        def __init__(self, nm):
+            self.nm = nm
+
+        def __eq__(self, o):
+            return isinstance(o, W) and o.nm == self.nm
+
+        def __hash__(self):
+            return hash(("W", self.nm))
+
+        def __repr__(self):
+            return f"<CSE {self.nm}>"
+
+    from ..absint import Obj
+
+    class Mp(Obj):
+        def __init__(self):
+            Obj.__init__(self, "mapper")
+            self.calls = []
+
+    helpers = {}
+    for k in reversed(model.mro(mx)):
+        if hasattr(k, "node") and k.module is mx.module:
+            for st in k.node.body:
+                if isinstance(st, ast.FunctionDef) and st.name.startswith("_") \
+                        and not st.name.startswith("__"):
+                    helpers[st.name] = st
+    glob = module_env(mx.module.tree, {})
+    wit = []
+    n = 0
+    kwsets = [{}, {"k": 1}, {"k": 2}] if sig.kwarg else [{}]
+    argsets = [(), ("a",), ("b",)] if sig.vararg else [()]
+    results = {"x": 0, "y": "value-of-y"}       # x evaluates to a falsy value
+
+    def run(mp, store, w, args, kw):
+        def uncached(*a, **k):
+            mp.calls.append((a, tuple(sorted(k.items()))))
+            return results[a[0].nm]
+
+        def attrs(it, node, base, attr):
+            return Opaque(ast.unparse(node))
+
+        def setattr_hook(it, node, args_, kw_):
+            args_[0].fields[args_[1]] = args_[2]
+            return None
+
+        def resolve(cls, nm):
+            if cls == "mapper" and nm in helpers:
+                return ("func", helpers[nm])
+            return None
+        me = fn.args.args[0].arg
+        it = Interp(calls={
+            "setattr": setattr_hook, "object.__setattr__": setattr_hook,
+            "immutabledict": lambda it_, n_, a, k: frozenset(
+                dict(*a, **k).items()),
+            "frozenset": lambda it_, n_, a, k: frozenset(*a),
+            f"{me}.map_common_subexpression_uncached":
+                lambda it_, n_, a, k: uncached(*a, **k)},
+            attrs=attrs, resolve=resolve, globals_=glob, max_steps=20000)
+        return it.call_function(fn, [mp, w] + list(args),
+                                {"__kwargs__": dict(kw)})
+
+    reqs = [(nm, a, kw) for nm in ("x", "y") for a in argsets for kw in kwsets]
+    for first, second in itertools.product(reqs, repeat=2):
+        n += 1
+        mp, store = Mp(), {}
+        label = (f"request ({first[0]}, {first[1]}, {first[2]}) then "
+                 f"({second[0]}, {second[1]}, {second[2]})")
+        try:
+            r1 = run(mp, store, W(first[0]), first[1], first[2])
+            c1 = len(mp.calls)
+            r2 = run(mp, store, W(second[0]), second[1], second[2])
+        except Raised as r:
+            wit.append(f"{label}: raises at line {getattr(r.node, 'lineno', '?')}")
+            continue
+        except StepBound:
+            wit.append(f"{label}: does not terminate")
+            continue
+        if c1 != 1 or mp.calls[0] != ((W(first[0]),) + tuple(first[1]),
+                                       tuple(sorted(first[2].items()))):
+            wit.append(f"{label}: the first request does not call "
+                       "map_common_subexpression_uncached once with exactly "
+                       f"(expr, *args, **kwargs) (calls: {mp.calls[:2]})")
+            continue
+        if r1 != results[first[0]]:
+            wit.append(f"{label}: the first request does not return the "
+                       "computed value")
+            continue
+        same = first == second
+        if same and (len(mp.calls) != 1 or r2 != r1):
+            wit.append(f"{label}: the repeated request is computed again "
+                       "(or answered with something else)")
+        if not same and (len(mp.calls) != 2 or r2 != results[second[0]]):
+            wit.append(f"{label}: the second, different request is answered "
+                       f"from the first one's entry ({r2!r})")
+    return wit, n
+
+
 def check_cse_mixin(ctx, model):
     mx = model.cls(f"{M}:CSECachingMapperMixin")
     mem = mx.members.get("map_common_subexpression")
@@ -494,6 +607,35 @@ def check_cse_mixin(ctx, model):
         raise AnalysisError("CSECachingMapperMixin.map_common_subexpression "
                             "not found")
     loc = mx.module.loc(mem.node)
+    try:
+        jwit, jn = _judge_cse_mixin(model, mx, mem.node)
+    except AnalysisError as e:
+        jwit = None
+        ctx.extra["judge_unavailable:CSECachingMapperMixin"] = str(e)
+    if jwit is not None:
+        ctx.ob("P0/cse-mixin/once-per-wrapper-and-arguments", not jwit, loc,
+               f"the mix-in's handler interpreted through {jn} two-request "
+               "histories: computed once per (wrapper, arguments), served from "
+               "the table afterwards, never across different wrappers or "
+               "arguments" if not jwit else
+               "CSECachingMapperMixin.map_common_subexpression: " +
+               "; ".join(jwit[:3]))
+    mark_mx = len(ctx.obs)
+    try:
+        _check_cse_mixin_structural(ctx, model, mx, mem, loc)
+    except AnalysisError:
+        if jwit is None or jwit:
+            raise
+    if jwit is not None and not jwit:
+        ctx.withdraw_failures_since(
+            mark_mx, "decided by interpreting the handler through request "
+            "histories", "T/cse-mixin/")
+        ctx.withdraw_failures_since(
+            mark_mx, "decided by interpreting the handler through request "
+            "histories", "P/cse-mixin/")
+
+
+def _check_cse_mixin_structural(ctx, model, mx, mem, loc):
     sig = signature(mem.node)
     ok_sig = sig.kwarg is None
     ctx.ob("T/cse-mixin/no-kwargs", ok_sig, loc,
